@@ -1381,6 +1381,18 @@ ADVANCE_TO_APP_DATA:
         }
         if (ssl->hsState == SSL_HS_FINISHED)
         {
+#ifdef USE_STATELESS_SESSION_TICKETS
+            if (!(ssl->flags & SSL_FLAGS_SERVER) && ssl->sid != NULL &&
+                ssl->sid->sessionTicketState == SESS_TICKET_STATE_RECVD_EXT)
+            {
+                /* The server acknowledged the SessionTicket extension: it
+                   MUST send a NewSessionTicket before its ChangeCipherSpec
+                   (RFC 5077, 3.3), possibly an empty one. */
+                ssl->err = SSL_ALERT_UNEXPECTED_MESSAGE;
+                psTraceErrr("ChangeCipherSpec instead of NewSessionTicket\n");
+                goto encodeResponse;
+            }
+#endif
             if (sslActivateReadCipher(ssl) < 0)
             {
                 ssl->err = SSL_ALERT_INTERNAL_ERROR;
